@@ -130,11 +130,20 @@ pub enum OpSpec {
     Truncate { pos: u16 },
     Purge { pos: u16, beyond: u8, noop: bool },
     Commit { pos: u16, beyond: bool },
-    Flush { wait: bool },
+    /// `nocb`: fire-and-forget `flush(None)` (only when `wait` is false).
+    Flush {
+        wait: bool,
+        #[serde(default)]
+        nocb: bool,
+    },
     /// Let the flush worker perform `k` gated calls (stepped mode; 255 = run until idle).
     Steps(u8),
     Read { from: u16, len: u16 },
     Reopen { cfg: CfgSpec },
+    /// `update_state()` with the current state changed in one field: 0 vote bumped, 1 committed
+    /// moved to a live entry, 2 user data replaced, 3 `last` lowered to a live entry's id (the
+    /// entries themselves stay: only the state is replaced), 4 `last` raised by one index.
+    UpdateState { what: u8, pos: u16 },
     Reject { kind: RejectKind, sel: u16 },
     Probe(ProbeSpec),
     /// Concurrent readers: `k` threads read random ranges while the worker gets `steps` grants.
@@ -219,6 +228,7 @@ pub struct Profile {
     pub w_probe: u32,
     pub w_readers: u32,
     pub w_dropreopen: u32,
+    pub w_update_state: u32,
     /// cache limits: 0 = unlimited only, 1 = small limits incl. 0
     pub small_cache: bool,
     pub trunc_opt: bool,
@@ -264,6 +274,7 @@ impl Profile {
             w_probe: 0,
             w_readers: 0,
             w_dropreopen: 0,
+            w_update_state: 0,
             small_cache: false,
             trunc_opt: false,
             huge_payload: false,
@@ -387,7 +398,7 @@ pub fn op_strategy(p: &Profile) -> BoxedStrategy<OpSpec> {
         (any::<u16>(), prop_oneof![5 => Just(0u8), 1 => 1u8..=4], proptest::bool::weighted(0.08)).prop_map(|(pos, beyond, noop)| OpSpec::Purge { pos, beyond, noop }).boxed(),
     );
     add(p.w_commit, (any::<u16>(), proptest::bool::weighted(0.15)).prop_map(|(pos, beyond)| OpSpec::Commit { pos, beyond }).boxed());
-    add(p.w_flush, proptest::bool::weighted(0.5).prop_map(|wait| OpSpec::Flush { wait }).boxed());
+    add(p.w_flush, (proptest::bool::weighted(0.5), proptest::bool::weighted(0.3)).prop_map(|(wait, nocb)| OpSpec::Flush { wait, nocb: nocb && !wait }).boxed());
     add(p.w_steps, prop_oneof![1 => Just(0u8), 4 => Just(1u8), 3 => Just(2u8), 2 => Just(3u8), 1 => Just(5u8), 2 => Just(255u8)].prop_map(OpSpec::Steps).boxed());
     add(p.w_read, (any::<u16>(), prop_oneof![Just(0u16), 1u16..6, Just(1000u16)]).prop_map(|(from, len)| OpSpec::Read { from, len }).boxed());
     add(p.w_reopen, cfg_strategy(p).prop_map(|cfg| OpSpec::Reopen { cfg }).boxed());
@@ -395,6 +406,7 @@ pub fn op_strategy(p: &Profile) -> BoxedStrategy<OpSpec> {
     add(p.w_probe, probe_strategy().prop_map(OpSpec::Probe).boxed());
     add(p.w_readers, (prop_oneof![Just(1u8), Just(2u8), Just(4u8)], 0u8..=4, any::<u16>()).prop_map(|(k, steps, sel)| OpSpec::Readers { k, steps, sel }).boxed());
     add(p.w_dropreopen, (0u8..=4).prop_map(|place| OpSpec::DropReopen { place }).boxed());
+    add(p.w_update_state, (0u8..=4, any::<u16>()).prop_map(|(what, pos)| OpSpec::UpdateState { what, pos }).boxed());
     proptest::strategy::Union::new_weighted(v).boxed()
 }
 
@@ -445,11 +457,11 @@ pub fn sample_case() -> Case {
             Append { n: 2, term: TermSel::Bump(1), first: FirstSel::Zero, pay: PaySel::Tiny(5) },
             Commit { pos: 30000, beyond: false },
             Purge { pos: 20000, beyond: 0, noop: false },
-            Flush { wait: true },
+            Flush { wait: true, nocb: false },
             Append { n: 4, term: TermSel::Same, first: FirstSel::Zero, pay: PaySel::Tiny(3) },
-            Flush { wait: true },
+            Flush { wait: true, nocb: false },
             Purge { pos: 20000, beyond: 0, noop: false },
-            Flush { wait: true },
+            Flush { wait: true, nocb: false },
             Read { from: 0, len: 1000 },
         ],
         alt: Some(CfgSpec { max_records: Some(7), ..CfgSpec::simple() }),
